@@ -104,11 +104,11 @@ func init() {
 		Assumptions: commonAssumptions, MinEvals: 3000000,
 		MinCounters: map[string]int64{"direct_decoding_succeeded": 300000, "direct_decoding_failed": 300000, "api_calls_HandleArrayValues": 100000, "api_calls_HandleObjectValues": 100000, "api_calls_SkipValueFast": 20000, "api_calls_return 0": 10000}})
 	register(&Spec{ID: "C09", Run: RunC09,
-		Rule:        "inputs: W3, W1, W4, W5; for each document and both traversals, a probe handler that fails at call k (every k for <= 8 callbacks) with a unique sentinel error and an accompanying offset from {0,1,-1,exact,len,len+1,MaxInt,MaxInt-1,MinInt,exact/2,-len}; earlier calls alternate between declining and exact skipping; distinct inputs by hash; non-trivial = (document, traversal kind) pairs with at least one callback",
+		Rule:        "inputs: W3, W1, W4, W5; for each document and both traversals, a probe handler that fails at call k (every k for <= 8 callbacks) with a unique sentinel error - or, every third time, one of ~20 error VALUES the library itself returns (as a handler that delegates to SkipValue / a nested traversal / a reader would), or a typed-nil error - and an accompanying offset from {0,1,-1,exact,len,len+1,MaxInt,MaxInt-1,MinInt,exact/2,-len}; earlier calls alternate between declining and exact skipping; distinct inputs by hash; non-trivial = (document, traversal kind) pairs with at least one callback",
 		Assumptions: commonAssumptions, MinEvals: 3000000,
-		MinCounters: map[string]int64{"error_returns_observed": 2000000, "failing_member_string": 50000, "failing_member_number": 50000, "failing_member_array": 50000, "failing_member_object": 50000, "failing_member_null": 20000, "failing_member_bool": 20000}})
+		MinCounters: map[string]int64{"error_returns_observed": 2000000, "handler_returned_a_library_error_value": 500000, "failing_member_string": 50000, "failing_member_number": 50000, "failing_member_array": 50000, "failing_member_object": 50000, "failing_member_null": 20000, "failing_member_bool": 20000}})
 	register(&Spec{ID: "C10", Run: RunC10, StallSeconds: 120,
-		Rule:        "inputs (held in read-only guard pages): raw random bytes and structural soups, a third of the W1 sweep (all of it in thorough), W3, W4 incl. depth 10,001+, W2 sample, W5 megabyte tokens and 1,048,576-deep nestings, number literals with every decimal exponent -400..400 and the float thresholds, every surrogate escape and a sample of the string-template sweep; each through every exported function (44 call forms; nil/fresh/long-lived buffers, one long-lived ValueReader) and through both traversals under 6 (quick) / 16 (thorough) hostile handler programs returning negative, beyond-end, near-MaxInt, MinInt, off-by-one and mid-token offsets; distinct by hash; non-trivial = at least 2 bytes",
+		Rule:        "inputs (held in read-only guard pages): raw random bytes and structural soups, a fifth of the W1 sweep rotating with the seed (all of it in thorough), W3, W4 incl. depth 10,001+, W2 sample, W5 megabyte tokens and 1,048,576-deep nestings, number literals with every decimal exponent -400..400 and the float thresholds, every surrogate escape and a sample of the string-template sweep; each through every exported function (45 call forms; nil/fresh/long-lived buffers, one long-lived ValueReader; short inputs a second time with plausible continuations planted in the spare capacity behind len(data), results must not change) and through both traversals under 6 (quick) / 16 (thorough) hostile handler programs returning negative, beyond-end, near-MaxInt, MinInt, off-by-one and mid-token offsets; distinct by hash; non-trivial = at least 2 bytes",
 		Assumptions: append([]string{"non-termination is detected by a stall watchdog (no new case for 120 s) confirmed by a single-case replay under a 10-minute limit; a fired-but-unconfirmed watchdog is inconclusive"}, commonAssumptions...),
 		MinEvals:    20000000,
 		MinCounters: map[string]int64{"hostile_programs_run": 5000000, "out_of_range_offsets_that_must_be_reported": 500000, "hostile_offsets_near_maxint": 100000, "hostile_offsets_negative": 100000, "hostile_offsets_mid_token": 100000, "inputs_in_read_only_pages": 1000000}})
